@@ -38,16 +38,22 @@ func (ctrApp) ValidAction(*channel.Params, *channel.State, channel.Index, channe
 	return nil
 }
 func (ctrApp) NewAction() channel.Action { return new(ctrAction) }
-func (ctrApp) ApplyActions(_ *channel.Params, s *channel.State, _ []channel.Action) (*channel.State, error) {
+func (ctrApp) ApplyActions(_ *channel.Params, s *channel.State, acts []channel.Action) (*channel.State, error) {
 	n := s.Clone()
 	n.Version++
+	for i := range n.Balances[0] { // the derived state shows the actions it was derived from
+		n.Balances[0][i] = big.NewInt(0)
+		if a, ok := acts[i].(*ctrAction); ok && a != nil {
+			n.Balances[0][i] = new(big.Int).SetUint64(a.N)
+		}
+	}
 	return n, nil
 }
 func (ctrApp) InitState(p *channel.Params, acts []channel.Action) (channel.Allocation, channel.Data, error) {
 	al := channel.NewAllocation(len(p.Parts), []wallet.BackendID{channel.TestBackendID}, cloneAssets[0])
 	bs := make([]channel.Bal, len(p.Parts))
 	for i := range bs {
-		bs[i] = big.NewInt(1)
+		bs[i] = big.NewInt(0)
 		if a, ok := acts[i].(*ctrAction); ok && a != nil {
 			bs[i] = new(big.Int).SetUint64(a.N)
 		}
